@@ -5,6 +5,7 @@ min_usage so far) and is either at its bound or has a *closed* (all consumers fi
 constraint on which its value·penalty is the largest.
 -/
 import SgVerif.Lmm.Lemmas
+import SgVerif.Lmm.Fat
 namespace SgVerif.Lmm
 
 theorem fixVar_fixed (S : Sys) (eps : Rat) (st : St) (v : Nat) (x : Rat) :
